@@ -234,6 +234,7 @@ type e1 struct {
 	relevantFn func(*Term) bool
 	anchors   map[string]bool        // functions named by obligations: analysed modularly, never interpreted in place
 	noInline  func(*FuncInfo) bool
+	wantIndex bool // also record index/slice expressions as sites (kind "index"): used to justify bounds sites inside helpers
 }
 
 func newE1(c *Ctx, guars []*Guar) *e1 {
@@ -1622,6 +1623,21 @@ func (f *e1func) collectSites(n ast.Node, states []*fstate, sites *[]*e1site, pr
 	if len(states) == 0 {
 		return
 	}
+	if f.eng.wantIndex {
+		ast.Inspect(n, func(m ast.Node) bool {
+			switch x := m.(type) {
+			case *ast.FuncLit:
+				return false
+			case *ast.IndexExpr:
+				if !isInstantiation(f.info, x) && !isMapIndex(f.info, x) {
+					*sites = append(*sites, &e1site{kind: "index", node: x, term: f.term(x), pos: x.Pos(), states: states})
+				}
+			case *ast.SliceExpr:
+				*sites = append(*sites, &e1site{kind: "index", node: x, term: f.term(x), pos: x.Pos(), states: states})
+			}
+			return true
+		})
+	}
 	switch s := n.(type) {
 	case *ast.AssignStmt:
 		if len(s.Lhs) == len(s.Rhs) {
@@ -1642,8 +1658,16 @@ func (f *e1func) collectSites(n ast.Node, states []*fstate, sites *[]*e1site, pr
 			rt := f.term(s.Rhs[0])
 			for i := range s.Lhs {
 				lt := f.lhsTerm(s.Lhs[i])
-				if lt == nil || lt.K == "var" {
-					continue // plain variables are covered by def facts
+				if lt == nil {
+					continue
+				}
+				if lt.K == "var" {
+					// plain variables are covered by def facts, except when the values come out of an interpreted helper
+					// (then the assignment is where the helper's returned expressions are stored)
+					call, isCall := unparen(s.Rhs[0]).(*ast.CallExpr)
+					if !isCall || f.inlineTargetOf(call) == nil {
+						continue
+					}
 				}
 				*sites = append(*sites, &e1site{kind: "store", node: s, term: mk("store", s.Tok.String(), lt, mk("res", fmt.Sprint(i), rt)), pos: s.Lhs[i].Pos(), states: states})
 			}
@@ -2713,6 +2737,47 @@ func builtinHolds(st *fstate, p *Term, b Bind) (bool, bool) {
 				}
 			}
 		}
+	case "le":
+		// c <= len(x) when x is (defined as) make(T, c [+ n]) with n a length
+		if len(g.A) == 2 && !hasPV(g) && g.A[1].K == "call" && g.A[1].S == "len" && len(g.A[1].A) == 1 {
+			c, x := g.A[0], g.A[1].A[0]
+			var sizes []*Term
+			if x.K == "call" && x.S == "make" && len(x.A) >= 2 {
+				sizes = append(sizes, x.A[1])
+			}
+			for _, fc := range st.facts {
+				if fc.S == "def" && len(fc.A) == 2 && fc.A[0].Key() == x.Key() && fc.A[1].K == "call" && fc.A[1].S == "make" && len(fc.A[1].A) >= 2 {
+					sizes = append(sizes, fc.A[1].A[1])
+				}
+			}
+			var atLeast func(s *Term) bool
+			nonNeg := func(s *Term) bool {
+				if s.K == "call" && s.S == "len" {
+					return true
+				}
+				if v, ok := constValueOf(s); ok {
+					var n int
+					if _, err := fmt.Sscan(v, &n); err == nil && n >= 0 {
+						return true
+					}
+				}
+				return false
+			}
+			atLeast = func(s *Term) bool {
+				if s.Key() == c.Key() {
+					return true
+				}
+				if s.K == "op" && s.S == "+" && len(s.A) == 2 {
+					return (atLeast(s.A[0]) && nonNeg(s.A[1])) || (atLeast(s.A[1]) && nonNeg(s.A[0]))
+				}
+				return false
+			}
+			for _, sz := range sizes {
+				if atLeast(sz) {
+					return true, true
+				}
+			}
+		}
 	case "nonnil":
 		if len(g.A) == 1 && !hasPV(g) {
 			if g.A[0].K == "lit" || (g.A[0].K == "op" && g.A[0].S == "&") {
@@ -3029,4 +3094,13 @@ func (e *e1) globalErrInit(v *types.Var) bool {
 		}
 	}
 	return e.globalInit[v]
+}
+
+func (s *fstate) sortedKeys() []string {
+	var ks []string
+	for k := range s.facts {
+		ks = append(ks, k)
+	}
+	sort.Strings(ks)
+	return ks
 }
